@@ -109,7 +109,9 @@ func genCase(t *rapid.T, maxSize int) c3case {
 		} else {
 			p.Mode = []string{"after-eof", "duplex", "first"}[rapid.IntRange(0, 2).Draw(t, "mode")]
 		}
-		p.SlowReader = rapid.IntRange(0, 3).Draw(t, "slowReader") == 0
+		// (only for streams of moderate size: with a receive window far below the loopback segment size the kernel
+		//  moves a few KiB per delayed-acknowledgement round, and a MiB would take longer than the case may last)
+		p.SlowReader = rapid.IntRange(0, 3).Draw(t, "slowReader") == 0 && c.Client <= 100000
 		c.Peers = append(c.Peers, p)
 	}
 	switch rapid.IntRange(0, 7).Draw(t, "fault") {
